@@ -19,22 +19,31 @@ func PartialServiceAreaListToNas(plmnID models.PlmnId, serviceAreaRestriction mo
 		allowedType = nasMessage.AllowedTypeNonAllowedArea
 	}
 
-	numOfElements := uint8(len(serviceAreaRestriction.Areas))
+	var tacList []byte
+	numOfTacs := 0
+	for _, area := range serviceAreaRestriction.Areas {
+		for _, tac := range area.Tacs {
+			if tacBytes, err := hex.DecodeString(tac); err != nil {
+				logger.ConvertLog.Warnf("Decode tac failed: %+v", err)
+			} else {
+				tacList = append(tacList, tacBytes...)
+				numOfTacs++
+			}
+		}
+	}
+
+	// TS 24.501 9.11.3.49: the "number of elements" field counts the TACs of the list, coded as
+	// number - 1 (00000 = 1 element)
+	var numOfElements uint8
+	if numOfTacs > 0 {
+		numOfElements = uint8(numOfTacs-1) & 0x1f
+	}
 
 	firstByte := (allowedType<<7)&0x80 + numOfElements // only support TypeOfList '00' now
 	plmnIDNas := PlmnIDToNas(plmnID)
 
 	partialServiceAreaList = append(partialServiceAreaList, firstByte)
 	partialServiceAreaList = append(partialServiceAreaList, plmnIDNas...)
-
-	for _, area := range serviceAreaRestriction.Areas {
-		for _, tac := range area.Tacs {
-			if tacBytes, err := hex.DecodeString(tac); err != nil {
-				logger.ConvertLog.Warnf("Decode tac failed: %+v", err)
-			} else {
-				partialServiceAreaList = append(partialServiceAreaList, tacBytes...)
-			}
-		}
-	}
+	partialServiceAreaList = append(partialServiceAreaList, tacList...)
 	return partialServiceAreaList
 }
